@@ -4,6 +4,7 @@ from . import gen_tables
 from . import gen_shape
 from . import gen_const
 from . import gen_units
+from . import gen_tol
 from . import gen_l2flow
 
 GENERATORS = {
@@ -13,6 +14,7 @@ GENERATORS = {
     "GenShape": gen_shape.generate,
     "GenConst": gen_const.generate,
     "GenUnits": gen_units.generate,
+    "GenTol": gen_tol.generate,
     "GenL2Flow": gen_l2flow.generate,
 }
 from . import gen_loop; GENERATORS["GenLoop"] = gen_loop.generate
